@@ -420,4 +420,107 @@ theorem execFull_rejected (srv : Srv) (req : Req) (h : ¬ Accepted srv req) :
       simp [execFull, handleRequest, rejectErr, h1, h2', h3]
   · simp [execFull, handleRequest, rejectErr, h1]
 
+/-! ### the loop around an arbitrary item chain (`loopG`) -/
+
+theorem loopG_stopped (f : Nat → Val → Item → GItemOut) (stop : Bool) :
+    ∀ (items : List Item) (i : Nat) (ph : Val),
+      loopG f stop items i true ph = (items.map canceled, [])
+  | [], _, _ => rfl
+  | it :: rest, i, ph => by
+    simp only [loopG, if_true, loopG_stopped f stop rest (i + 1) ph, List.map_cons]
+
+theorem loopG_length (f : Nat → Val → Item → GItemOut) (stop : Bool) :
+    ∀ (items : List Item) (i : Nat) (stopped : Bool) (ph : Val),
+      (loopG f stop items i stopped ph).1.length = items.length
+  | [], _, _, _ => rfl
+  | it :: rest, i, stopped, ph => by
+    cases stopped with
+    | true => simp only [loopG, if_true, List.length_cons, loopG_length f stop rest]
+    | false =>
+      simp only [loopG, Bool.false_eq_true, if_false, List.length_cons, loopG_length f stop rest]
+
+/-- the middleware-free loop is the generic loop around `plainItem`. -/
+theorem loop_eq_loopG (srv : Srv) (stop : Bool) :
+    ∀ (items : List Item) (i : Nat) (stopped : Bool) (ph : Val),
+      (loop srv stop items i stopped ph).items = (loopG (plainItem srv) stop items i stopped ph).1
+  | [], _, _, _ => rfl
+  | it :: rest, i, stopped, ph => by
+    cases stopped with
+    | true =>
+      simp only [loop, loopG, if_true]
+      rw [loop_eq_loopG srv stop rest (i + 1) true ph]
+    | false =>
+      simp only [loop, loopG, Bool.false_eq_true, if_false, plainItem]
+      rw [loop_eq_loopG srv stop rest (i + 1) _ _]
+
+/-- Continue / unset: every item is handed to the chain exactly once, in order. -/
+theorem loopG_continue (f : Nat → Val → Item → GItemOut) :
+    ∀ (items : List Item) (i : Nat) (ph : Val),
+      (loopG f false items i false ph).2 = List.range' i items.length
+  | [], _, _ => rfl
+  | it :: rest, i, ph => by
+    simp only [loopG, Bool.false_eq_true, if_false, Bool.and_false, List.length_cons, List.range'_succ]
+    rw [loopG_continue f rest (i + 1) _]
+
+/-- Stop: with `k` the first failed item of the response, exactly the items `0..k` were handed to the chain, in
+    order, each once; every later item is answered `canceled` (failed, echoing operation and id). -/
+theorem loopG_stop (f : Nat → Val → Item → GItemOut) :
+    ∀ (items : List Item) (i : Nat) (ph : Val) (k : Nat) (r : RItem),
+      (loopG f true items i false ph).1[k]? = some r → r.failed = true →
+      (∀ j r', j < k → (loopG f true items i false ph).1[j]? = some r' → r'.failed = false) →
+      (loopG f true items i false ph).2 = List.range' i (k + 1) ∧
+      ∀ j it, k < j → items[j]? = some it →
+        (loopG f true items i false ph).1[j]? = some (canceled it)
+  | [], _, _, k, r, hk, _, _ => by simp [loopG] at hk
+  | it :: rest, i, ph, k, r, hk, hf, hfirst => by
+    simp only [loopG, Bool.false_eq_true, if_false, Bool.and_true] at hk hfirst ⊢
+    cases hfail : (f i ph it).ri.failed with
+    | true =>
+      have hk0 : k = 0 := by
+        cases k with
+        | zero => rfl
+        | succ k' =>
+          have := hfirst 0 (f i ph it).ri (Nat.succ_pos _) (by simp)
+          rw [hfail] at this; cases this
+      subst hk0
+      rw [loopG_stopped]
+      refine ⟨by simp [List.range'], ?_⟩
+      intro j it' hj hget
+      cases j with
+      | zero => omega
+      | succ j' =>
+        simp only [List.getElem?_cons_succ] at hget ⊢
+        rw [List.getElem?_map, hget]; rfl
+    | false =>
+      cases k with
+      | zero =>
+        simp only [List.getElem?_cons_zero, Option.some.injEq] at hk
+        rw [← hk, hfail] at hf; cases hf
+      | succ k' =>
+        simp only [List.getElem?_cons_succ] at hk
+        rw [hfail] at hk
+        have ih := loopG_stop f rest (i + 1) (f i ph it).ph k' r (by simpa using hk) hf
+          (fun j r' hj hr' => hfirst (j + 1) r' (by omega) (by
+            simp only [List.getElem?_cons_succ]; rw [hfail]; simpa using hr'))
+        refine ⟨by rw [ih.1]; exact (List.range'_succ (s := i) (n := k' + 1) (step := 1)).symm, ?_⟩
+        intro j it' hj hget
+        cases j with
+        | zero => omega
+        | succ j' =>
+          simp only [List.getElem?_cons_succ] at hget ⊢
+          exact ih.2 j' it' (by omega) hget
+
+/-- Stop without a failed response item: every item was handed to the chain. -/
+theorem loopG_stop_no_failure (f : Nat → Val → Item → GItemOut) :
+    ∀ (items : List Item) (i : Nat) (ph : Val),
+      (∀ (j : Nat) (r' : RItem), (loopG f true items i false ph).1[j]? = some r' → r'.failed = false) →
+      (loopG f true items i false ph).2 = List.range' i items.length
+  | [], _, _, _ => rfl
+  | it :: rest, i, ph, h => by
+    simp only [loopG, Bool.false_eq_true, if_false, Bool.and_true] at h ⊢
+    have h0 : (f i ph it).ri.failed = false := h 0 _ (by simp)
+    rw [h0] at h ⊢
+    simp only [List.length_cons, List.range'_succ]
+    rw [loopG_stop_no_failure f rest (i + 1) _ (fun j r' hr' => h (j + 1) r' (by simpa using hr'))]
+
 end Kmip.Batch
